@@ -25,9 +25,22 @@ Fixpoint txt_loop (fuel : nat) (m : bytes) (off : N) : res N :=
     let l := nthN m off 0 in
     if lenN m <? off + 1 + l then Err "overflow" else txt_loop f m (off + 1 + l)
   end.
+(* k consecutive unpackUint32, each followed by the generated
+   if-off-equals-len-msg-return exit (SOA serial .. minttl) *)
+Fixpoint u32s_loop (k : nat) (m : bytes) (off : N) : res N :=
+  match k with
+  | O => Ok off
+  | S k' => do (_, o) <- rd 4 m off; if o =? lenN m then Ok o else u32s_loop k' m o
+  end.
 Definition rdata_inst (ty : N) (m : bytes) (off : N) : res N :=
   if ty =? 1 then (if lenN m <? off + 4 then Err "overflow" else Ok (off + 4))
   else if (ty =? 2) || (ty =? 5) || (ty =? 12) then do (_, o) <- unpack_name m off; Ok o
+  else if ty =? 6 then
+    (* SOA (the envelopes of a zone transfer carry it): Ns, Mbox, five uint32 *)
+    do (_, o) <- unpack_name m off;
+    if o =? lenN m then Ok o else
+    do (_, o) <- unpack_name m o;
+    if o =? lenN m then Ok o else u32s_loop 5 m o
   else if ty =? 15 then
     do (_, o) <- rd 2 m off;
     if o =? lenN m then Ok o else do (_, o) <- unpack_name m o; Ok o
